@@ -507,11 +507,11 @@ def check_interp(spec, ctx):
     Vm = np.asarray(V, dtype=float).reshape(-1, K)
     # (a) the interpolant matches the data at the nodes (backward error of the solve)
     Cn = float(np.prod([np.linalg.norm(c, 2) for c in Cax]))
-    tol = 200.0 * EPS * math.sqrt(C.shape[0]) * (Cn * np.linalg.norm(G, axis=0) + np.linalg.norm(Vm, axis=0)) \
+    tol = 400.0 * EPS * math.sqrt(C.shape[0]) * (Cn * np.linalg.norm(G, axis=0) + np.linalg.norm(Vm, axis=0)) \
         + 64.0 * delta * (np.abs(C) @ np.abs(G)).max(axis=0) + 1e-300
     ctx.close("matches_data_at_nodes", C @ G, Vm, rtol=0.0, atol=np.broadcast_to(tol[None, :], Vm.shape), scale=0.0)
     # (b) coefficients: known ones for data in the space, dense reference solve otherwise
-    rel = (200.0 * EPS + 64.0 * delta) * kappa
+    rel = (500.0 * EPS + 64.0 * delta) * kappa
     if rel < 1e-3:
         cref = cstar if cstar is not None else np.linalg.solve(C, Vm)
         sc = np.maximum(np.max(np.abs(cref), axis=0), np.max(np.abs(Vm), axis=0))
